@@ -3,8 +3,7 @@
    Statements quantify over ALL values / keys / histories.  Classes:
      wf_val v   : no NaN, integers in i64 range, maps have hashable pairwise-different keys (what map
                   operations produce);
-     hash_ok_on : a universe of keys on which the hash respects == (finding C14a: 1 / 1.0, 0.0 / -0.0 are
-                  outside);
+     key_ok k   : hashable, no NaN, integers within +-2^53 (beyond that `==` is not transitive: finding C14e);
      sortable   : all integers, or all non-NaN floats, or all strings. *)
 From Coq Require Import ZArith List Bool Sorting.Permutation Sorting.Sorted.
 From Flocq Require Import IEEE754.Binary IEEE754.Bits.
@@ -77,51 +76,55 @@ Theorem key_eq_is_veq : forall x y, hashable x = true -> key_eq x y = veq x y.
 Proof. exact EqProofs.key_eq_is_veq. Qed.
 Print Assumptions key_eq_is_veq.
 
-(* the hash does NOT respect ==  (1 vs 1.0) *)
-Theorem hash_respects_eq_refuted :
-  exists a b, key_ok a /\ key_ok b /\ key_eq a b = true /\ hstream_eqb (hstream a) (hstream b) = false.
-Proof. exact EqProofs.hash_respects_eq_refuted. Qed.
-Print Assumptions hash_respects_eq_refuted.
+(* the hash respects ==: equal keys feed the hasher the same input — ALL values (fix of C14a in /repo:
+   KNumber::hash writes the normalized f64 bits) *)
+Theorem hash_respects_eq : forall x y, key_eq x y = true -> hstream x = hstream y.
+Proof. exact EqProofs.hash_respects_eq. Qed.
+Print Assumptions hash_respects_eq.
 
-(* on keys where it does: after inserting k, k' addresses that entry exactly when k == k' *)
+(* after inserting k, k' addresses that entry exactly when k == k' (keys: hashable, NaN-free, integers exactly
+   convertible to f64 — beyond 2^53 `==` is not an equivalence, finding C14e) *)
 Theorem key_identity : forall (V : Type) (U : val -> Prop),
-    (forall k, U k -> key_ok k) -> hash_ok_on U ->
+    (forall k, U k -> key_ok k) ->
     forall (m : list (val * V)) k k' v,
       (forall x, In x (map fst m) -> U x) -> U k -> U k' -> Distinct (map fst m) ->
       get_index_of (snd (insert_full m k v)) k' = Some (fst (fst (insert_full m k v))) <-> key_eq k k' = true.
 Proof. intros V. exact (@EqProofs.key_identity V). Qed.
 Print Assumptions key_identity.
 
-Theorem key_identity_refuted :
-    key_ok w_k /\ key_ok w_k' /\ (forall x, In x (map fst w_map) -> key_ok x) /\ distinctb (map fst w_map) = true /\
-    key_eq w_k w_k' = true /\
-    get_index_of (snd (insert_full w_map w_k VNull)) w_k' = None /\
-    get_index_of (snd (insert_full (@nil (val * val)) w_k VNull)) w_k' = Some 0%nat.
-Proof. exact EqProofs.key_identity_refuted. Qed.
-Print Assumptions key_identity_refuted.
+(* 1 and 1.0: one key in maps of any size *)
+Theorem key_identity_mixed :
+    key_ok w_k /\ key_ok w_k' /\ key_eq w_k w_k' = true /\ hstream w_k = hstream w_k' /\
+    get_index_of (snd (insert_full (@nil (val * val)) w_k VNull)) w_k' = Some 0%nat /\
+    get_index_of (snd (insert_full w_map w_k VNull)) w_k' = Some 1%nat /\
+    get_index_of (snd (insert_full w_map4 w_k VNull)) w_k' = Some 4%nat /\
+    fst (fst (insert_full (snd (insert_full w_map4 w_k VNull)) w_k' VNull)) = 4%nat.
+Proof. exact EqProofs.key_identity_mixed. Qed.
+Print Assumptions key_identity_mixed.
 
 (* ------------------------------------------------------------------ map order *)
 
-(* after any history the key sequence is the spec's function of the history; both sides are None exactly
-   when `m[i] = (k, _)` hits the panic of finding C14b *)
+(* after any history the key sequence is the spec's function of the history, for ALL keys; both sides are
+   None exactly when `m[i] = (k, _)` hits the panic of finding C14b *)
 Theorem map_order : forall (V : Type)
     (sort_entries : (val * V -> val * V -> comparison) -> list (val * V) -> list (val * V))
     (sort_keys : (val -> val -> comparison) -> list val -> list val) (dflt : V),
     (forall cmp (m : list (val * V)), map fst (sort_entries (fun a b => cmp (fst a) (fst b)) m) = sort_keys cmp (map fst m)) ->
     (forall cmp l k, In k (sort_keys cmp l) -> In k l) ->
-    forall U : val -> Prop, hash_ok_on U ->
     forall (ops : list mop) (m : list (val * V)),
-      (forall k, In k (map fst m) -> U k) ->
-      (forall o, In o ops -> forall k, In k (mop_keys o) -> U k) ->
       option_map (map fst) (model_run sort_entries dflt m ops) = spec_run sort_keys (map fst m) ops.
-Proof. intros V. exact (@MapProofs.map_order V). Qed.
+Proof.
+  intros V se sk d Hn Hp ops m.
+  apply (@MapProofs.map_order V se sk d Hn Hp (fun _ => True) (EqProofs.hash_ok_all _)); auto.
+Qed.
 Print Assumptions map_order.
 
-Theorem index_assign_panics : forall (V : Type) (U : val -> Prop), hash_ok_on U ->
-    forall (m : list (val * V)) i k v,
-      (forall x, In x (map fst m) -> U x) -> U k -> (i < length m)%nat ->
-      clashes (map fst m) i k = true -> index_assign m i k v = Panic.
-Proof. intros V. exact (@MapProofs.index_assign_panics V). Qed.
+Theorem index_assign_panics : forall (V : Type) (m : list (val * V)) i k v,
+      (i < length m)%nat -> clashes (map fst m) i k = true -> index_assign m i k v = Panic.
+Proof.
+  intros V m i k v Hi Hc.
+  apply (@MapProofs.index_assign_panics V (fun _ => True) (EqProofs.hash_ok_all _)); auto.
+Qed.
 Print Assumptions index_assign_panics.
 
 (* ------------------------------------------------------------------ sharing / copying *)
@@ -209,9 +212,10 @@ Example index_assign_witness :
   index_assign [(VStr [97], VNull); (VStr [98], VNull); (VStr [99], VNull)] 0 (VStr [98]) VNull = Panic.
 Proof. vm_compute. reflexivity. Qed.
 
-(* a universe on which the hash respects ==: strings *)
-Example strings_hash_ok : hash_ok_on (fun k => exists s, k = VStr s).
-Proof.
-  intros a b [s ->] [t ->] E. simpl in *. apply EqProofs.bytes_eqb_eq in E. subst.
-  rewrite EqProofs.bytes_eqb_refl. reflexivity.
-Qed.
+(* {1: 1, 2: 2} == {1.0: 1, 2: 2}; 0, 0.0 and -0.0 hash alike *)
+Example veq_maps_mixed_keys :
+    veq (VMap [(VNum (I 1), VNum (I 1)); (VNum (I 2), VNum (I 2))])
+        (VMap [(w_k', VNum (I 1)); (VNum (I 2), VNum (I 2))]) = true /\
+    hstream (VNum (I 0)) = hstream (VNum (F (b64_of_bits 9223372036854775808))) /\
+    hstream (VNum (I 0)) = hstream (VNum (F (b64_of_bits 0))).
+Proof. exact EqProofs.veq_maps_mixed_keys. Qed.
